@@ -39,6 +39,15 @@ GENERIC_PROBES = ['`1\n', '`define 1\n', '`begin_keywords "1800-2017 \n', 'modul
                   '`include\n', '`ifdef\n', '`timescale 1\n', '`line 1\n', '`pragma\n', '`default_nettype\n', '`undef\n', '`unconnected_drive\n']
 
 
+_DIRS = ['`resetall\n', '`timescale 1ns/1ps\n', '`default_nettype none\n', '`celldefine\n`endcelldefine\n', '`unconnected_drive pull0\n`nounconnected_drive\n',
+         '`line 1 "f.v" 0\n', '`pragma foo\n', '`define M 1\n', '`undef M\n', '`undefineall\n', '`ifdef A\n`endif\n', '`include "x.svh"\n', '`M\n', '`__FILE__\n']
+# texts the real parser accepts as a whole: afterwards the keyword-version stack holds exactly the `begin_keywords still open
+EXACT_PROBES = (['`begin_keywords "1364-2001"\n' + d + 'module a; endmodule\n' for d in _DIRS] +
+                ['`begin_keywords "1364-2001"\nmodule a; endmodule\n' + d + 'module b; endmodule\n' for d in _DIRS] +
+                ['`begin_keywords "1364-2001"\n' + d + 'module a; endmodule\n`end_keywords\n' for d in _DIRS[:4]] +
+                ['`begin_keywords "1800-2005"\n`begin_keywords "1364-2001"\nmodule a; endmodule\n`end_keywords\n' + d + 'module b; endmodule\n' for d in _DIRS[:4]])
+
+
 def native_scope_leak(name):
     """is a leaked scope observable on the real parser?  after parsing a probe text the directive stack must be empty and
     the keyword-version stack not deeper than the number of `begin_keywords in the text"""
@@ -53,6 +62,15 @@ def native_scope_leak(name):
             allowed = t.count('`begin_keywords')
             if d[0] > 0 or d[1] > allowed:
                 return {'probe': t, 'parser': parser, 'depths_after_parse': d, 'begin_keywords_in_text': allowed}
+    for t in EXACT_PROBES:
+        for parser in ('sv',):
+            r = nat.request({'cmd': 'raw', 'parser': parser, 'text': t, 'debug': False}, cache=True)
+            d = r.get('depths')
+            if not d or not r.get('ok') or r.get('consumed') != len(t.encode('utf-8')):
+                continue
+            want = t.count('`begin_keywords') - t.count('`end_keywords')
+            if d[0] != 0 or d[1] != want:
+                return {'probe': t, 'parser': parser, 'depths_after_parse': d, 'open_begin_keywords_in_text': want}
     return None
 
 
